@@ -2,7 +2,9 @@ package main
 
 import (
 	"encoding/json"
+	"sort"
 	"strconv"
+	"strings"
 
 	"github.com/ipfs/ipfs-cluster/api"
 
@@ -26,6 +28,10 @@ func runStr(out *common.Out, kind, arg string) {
 			st := api.TrackerStatus(n)
 			s := st.String()
 			back := api.TrackerStatusFromString(s)
+			// String() joins the names in Go's map iteration order: print them sorted (canonical output)
+			names := strings.Split(s, ",")
+			sort.Strings(names)
+			s = strings.Join(names, ",")
 			jb := "err"
 			if bs, err := json.Marshal(st); err == nil {
 				var st2 api.TrackerStatus
